@@ -20,3 +20,4 @@ import Ymq.Props.C06Word
 #print axioms Ymq.C06.pseudoprime_word_eq_isprime64
 #print axioms Ymq.C06.pseudoprime_word_oversize
 #print axioms Ymq.C06.pseudoprime_word_iff_sprp_partial
+#print axioms Ymq.C06.millerBase_low_word_one_counterexample
